@@ -35,6 +35,8 @@ QM == {Q("trade_date", QD(k), s, a, 0, DefaultSession) : k \in QDays, s \in QSec
       \cup {Q("trade_date", QD(k), s, a, 1, sc) : k \in QDays, s \in QSecs, a \in {"f", "p"}, sc \in Sess}
       \cup {Q(op, QD(k), s, "", 0, DefaultSession) : op \in {"is_trading", "mask"}, k \in QDays, s \in QSecs}
       \cup {Q(op, QD(k), s, "", 1, sc) : op \in {"is_trading", "mask"}, k \in QDays, s \in QSecs, sc \in Sess}
+      \cup {Q("is_trading", QD(k), s, "", ex, sc) : k \in QDays, s \in QSecs, ex \in {2, 3}, sc \in Sess}
+      \cup {Q("trade_date", QD(k), s, a, ex, sc) : k \in QDays, s \in QSecs, a \in {"f", "p"}, ex \in {2, 3}, sc \in Sess \ {DefaultSession}}
 Askable(q) == SQDomain(st.cfg, st.defs, q)
 HolSeq(H) == SetToSortSeq(H, <)
 Log(ev) == hist' = IF KeepHist THEN Append(hist, ev) ELSE hist
